@@ -62,7 +62,8 @@ class Stub(types.SimpleNamespace):
 class Obj(Stub):
     """an instance stub whose class part is analysed source: `_methods` maps the names defined in the class body to their
     FunctionDef (`_props`: the ones decorated as properties), evaluated by this interpreter on attribute access;
-    `_natives` gives plain values / callables for what the C base class provides; `_ctor` stands for `self.__class__`"""
+    `_natives` gives plain values / callables for what the C base class provides; `_ctor` stands for `self.__class__`;
+    `_funcs` (optional): the globals of the module that defines the class - its methods run in them whoever calls"""
 
 
 class ClassStub(Stub):
@@ -107,6 +108,7 @@ def _attr(v, name, funcs, depth):
             return d[name]
         if name in d.get("_methods", {}):
             fn = d["_methods"][name]
+            funcs = d.get("_funcs") or funcs              # the globals of the module the class is defined in, when the world gives them
             if depth > 8:
                 raise Unsupported("call depth")
             decos = {un(x) for x in fn.decorator_list}
@@ -138,6 +140,9 @@ _EXC_BASES = {"ParserError": ("ValueError",), "OverflowError": ("ArithmeticError
               "IndexError": ("LookupError",), "NonExistingTime": ("PendulumException",), "AmbiguousTime": ("PendulumException",), "InvalidTimezone": ("ValueError",)}
 
 
+_MISSING = object()
+
+
 class Raised(ValueError):
     """a `raise` statement of the analysed code was reached; `exc_name` is the class it names"""
 
@@ -164,16 +169,19 @@ MAX_ITER = 400
 
 _BUILTINS = {"range": range, "int": int, "str": str, "len": len, "bool": bool, "abs": abs, "divmod": divmod, "min": min, "max": max, "round": round,
              "float": float, "any": any, "all": all, "sum": sum, "sorted": sorted, "tuple": tuple, "list": list, "enumerate": lambda *a, **k: list(enumerate(*a, **k)),
-             "zip": lambda *a: list(zip(*a)), "reversed": lambda x: list(reversed(x)), "set": set, "frozenset": frozenset, "repr": repr, "pow": pow, "chr": chr, "ord": ord}
+             "callable": callable, "zip": lambda *a: list(zip(*a)), "reversed": lambda x: list(reversed(x)), "set": set, "frozenset": frozenset, "repr": repr, "pow": pow, "chr": chr, "ord": ord}
+_BUILTIN_VALUES = {"tuple": tuple, "list": list, "dict": dict, "set": set, "frozenset": frozenset, "str": str, "int": int, "float": float, "bool": bool, "bytes": bytes,
+                   "ValueError": ValueError, "TypeError": TypeError, "KeyError": KeyError, "IndexError": IndexError, "NotImplemented": NotImplemented}
 _STR_METHODS = {"startswith", "endswith", "split", "replace", "zfill", "ljust", "rjust", "strip", "lstrip", "rstrip", "upper", "lower",
                 "find", "count", "isdigit", "partition", "rpartition", "join", "format"}
 
 
 def ev(n: ast.AST, env: dict[str, Any], funcs: dict[str, ast.FunctionDef] | None = None, depth: int = 0) -> Any:
     funcs = funcs or {}
-    if isinstance(n, ast.Constant):
+    t = type(n)
+    if t is ast.Constant:
         return n.value
-    if isinstance(n, ast.Name):
+    if t is ast.Name:
         if n.id in env:
             return env[n.id]
         if n.id in ("True", "False", "None"):
@@ -181,91 +189,29 @@ def ev(n: ast.AST, env: dict[str, Any], funcs: dict[str, ast.FunctionDef] | None
         g = funcs.get("$globals") if funcs else None
         if isinstance(g, dict) and n.id in g:
             return g[n.id]
+        if n.id in _BUILTIN_VALUES:
+            return _BUILTIN_VALUES[n.id]
         raise Unsupported(f"free name `{n.id}`")
-    if isinstance(n, ast.UnaryOp):
-        v = ev(n.operand, env, funcs, depth)
-        if isinstance(n.op, ast.USub):
-            return -v
-        if isinstance(n.op, ast.UAdd):
-            return +v
-        if isinstance(n.op, ast.Not):
-            return not v
-    if isinstance(n, ast.BinOp):
-        a, b = ev(n.left, env, funcs, depth), ev(n.right, env, funcs, depth)
-        ops = {ast.Add: lambda: a + b, ast.Sub: lambda: a - b, ast.Mult: lambda: a * b, ast.FloorDiv: lambda: a // b,
-               ast.Mod: lambda: a % b, ast.Div: lambda: a / b, ast.Pow: lambda: a ** b}
-        f = ops.get(type(n.op))
-        if f is None:
-            raise Unsupported(f"operator {type(n.op).__name__}")
-        try:
-            return f()
-        except (TypeError, OverflowError, ZeroDivisionError, ValueError) as e:
-            plain = (int, float, str, bool, _dt.timedelta, _dt.datetime, _dt.date, _dt.time)
-            if isinstance(a, plain) and isinstance(b, plain):
-                # what the analysed code itself raises here (aware - naive, 1 / 0): an outcome, not a limit of the interpreter
-                raise Raised(f"raise reached: {type(e).__name__}: {e}", type(e).__name__) from None
-            raise
-    if isinstance(n, ast.BoolOp):
-        v = None
-        for x in n.values:
-            v = ev(x, env, funcs, depth)
-            if isinstance(n.op, ast.And) and not v:
-                return v
-            if isinstance(n.op, ast.Or) and v:
-                return v
-        return v
-    if isinstance(n, ast.Compare):
-        left = ev(n.left, env, funcs, depth)
-        for op, r in zip(n.ops, n.comparators):
-            right = ev(r, env, funcs, depth)
-            ok = {ast.Eq: lambda: left == right, ast.NotEq: lambda: left != right, ast.Lt: lambda: left < right, ast.LtE: lambda: left <= right,
-                  ast.Gt: lambda: left > right, ast.GtE: lambda: left >= right, ast.In: lambda: left in right,
-                  ast.NotIn: lambda: left not in right, ast.Is: lambda: left is right, ast.IsNot: lambda: left is not right}[type(op)]()
-            if not ok:
-                return False
-            left = right
-        return True
-    if isinstance(n, ast.IfExp):
-        return ev(n.body if ev(n.test, env, funcs, depth) else n.orelse, env, funcs, depth)
-    if isinstance(n, (ast.Tuple, ast.List)):
-        vals = _starred(n.elts, env, funcs, depth)
-        return tuple(vals) if isinstance(n, ast.Tuple) else vals
-    if isinstance(n, ast.Dict):
-        out_d: dict[Any, Any] = {}
-        for k, v in zip(n.keys, n.values):
-            if k is None:
-                out_d.update(ev(v, env, funcs, depth))
-            else:
-                out_d[ev(k, env, funcs, depth)] = ev(v, env, funcs, depth)
-        return out_d
-    if isinstance(n, ast.JoinedStr):
-        out = ""
-        for v in n.values:
-            if isinstance(v, ast.Constant):
-                out += str(v.value)
-            else:
-                val = ev(v.value, env, funcs, depth)
-                spec = ev(v.format_spec, env, funcs, depth) if v.format_spec is not None else ""
-                if v.conversion == ord("r"):
-                    val = repr(val)
-                elif v.conversion == ord("s"):
-                    val = str(val)
-                out += format(val, spec)
-        return out
-    if isinstance(n, ast.Attribute):
+    if t is ast.Attribute:
         v = ev(n.value, env, funcs, depth)
         if isinstance(v, _OPEN) or v is _dt or (isinstance(v, type) and v in _STD_CLASSES):
             return _attr(v, n.attr, funcs, depth)
         raise Unsupported(f"attribute `{un(n)[:40]}`")
-    if isinstance(n, ast.Subscript):
+    if t is ast.Subscript:
         v = ev(n.value, env, funcs, depth)
         if isinstance(n.slice, ast.Slice):
             lo = ev(n.slice.lower, env, funcs, depth) if n.slice.lower is not None else None
             hi = ev(n.slice.upper, env, funcs, depth) if n.slice.upper is not None else None
             stp = ev(n.slice.step, env, funcs, depth) if n.slice.step is not None else None
             return v[lo:hi:stp]
-        return v[ev(n.slice, env, funcs, depth)]
-    if isinstance(n, ast.Call):
+        idx = ev(n.slice, env, funcs, depth)
+        try:
+            return v[idx]
+        except (KeyError, IndexError) as e:
+            if isinstance(v, (dict, list, tuple, str)):
+                raise Raised(f"raise reached: {type(e).__name__}: {e}", type(e).__name__) from None
+            raise
+    if t is ast.Call:
         if isinstance(n.func, ast.Name) and n.func.id == "cast" and len(n.args) == 2 and not n.keywords:
             return ev(n.args[1], env, funcs, depth)         # typing.cast: the type expression is not evaluated
         args = _starred(n.args, env, funcs, depth)
@@ -361,9 +307,131 @@ def ev(n: ast.AST, env: dict[str, Any], funcs: dict[str, ast.FunctionDef] | None
                     except (ValueError, OverflowError) as e:
                         # what the standard library raises for these arguments (date(2015, 2, 29)): an outcome of the analysed code
                         raise Raised(f"raise reached: {type(e).__name__}: {e}", type(e).__name__) from None
-            if isinstance(recv, (dict, set, frozenset, list, tuple)) and n.func.attr in ("get", "keys", "values", "items", "index", "count"):
+            if isinstance(recv, (dict, set, frozenset, list, tuple, types.MappingProxyType)) and n.func.attr in ("get", "keys", "values", "items", "index", "count", "copy"):
                 return getattr(recv, n.func.attr)(*args, **kws)
+        if isinstance(n.func, (ast.Subscript, ast.IfExp, ast.BoolOp)):
+            f = ev(n.func, env, funcs, depth)       # a callable taken out of a table of the analysed code
+            if isinstance(f, _CALLABLE_VALUES) or f in (str, int, float, bool):
+                return f(*args, **kws)
         raise Unsupported(f"call `{un(n)[:50]}`")
+    if t is ast.UnaryOp:
+        v = ev(n.operand, env, funcs, depth)
+        if isinstance(n.op, ast.USub):
+            return -v
+        if isinstance(n.op, ast.UAdd):
+            return +v
+        if isinstance(n.op, ast.Not):
+            return not v
+    if t is ast.BinOp:
+        a, b = ev(n.left, env, funcs, depth), ev(n.right, env, funcs, depth)
+        ops = {ast.Add: lambda: a + b, ast.Sub: lambda: a - b, ast.Mult: lambda: a * b, ast.FloorDiv: lambda: a // b,
+               ast.Mod: lambda: a % b, ast.Div: lambda: a / b, ast.Pow: lambda: a ** b}
+        f = ops.get(type(n.op))
+        if f is None:
+            raise Unsupported(f"operator {type(n.op).__name__}")
+        try:
+            return f()
+        except (TypeError, OverflowError, ZeroDivisionError, ValueError) as e:
+            plain = (int, float, str, bool, _dt.timedelta, _dt.datetime, _dt.date, _dt.time)
+            if isinstance(a, plain) and isinstance(b, plain):
+                # what the analysed code itself raises here (aware - naive, 1 / 0): an outcome, not a limit of the interpreter
+                raise Raised(f"raise reached: {type(e).__name__}: {e}", type(e).__name__) from None
+            raise
+    if t is ast.BoolOp:
+        v = None
+        for x in n.values:
+            v = ev(x, env, funcs, depth)
+            if isinstance(n.op, ast.And) and not v:
+                return v
+            if isinstance(n.op, ast.Or) and v:
+                return v
+        return v
+    if t is ast.Compare:
+        left = ev(n.left, env, funcs, depth)
+        for op, r in zip(n.ops, n.comparators):
+            right = ev(r, env, funcs, depth)
+            ok = {ast.Eq: lambda: left == right, ast.NotEq: lambda: left != right, ast.Lt: lambda: left < right, ast.LtE: lambda: left <= right,
+                  ast.Gt: lambda: left > right, ast.GtE: lambda: left >= right, ast.In: lambda: left in right,
+                  ast.NotIn: lambda: left not in right, ast.Is: lambda: left is right, ast.IsNot: lambda: left is not right}[type(op)]()
+            if not ok:
+                return False
+            left = right
+        return True
+    if t is ast.IfExp:
+        return ev(n.body if ev(n.test, env, funcs, depth) else n.orelse, env, funcs, depth)
+    if t in (ast.Tuple, ast.List):
+        vals = _starred(n.elts, env, funcs, depth)
+        return tuple(vals) if isinstance(n, ast.Tuple) else vals
+    if t is ast.Lambda:
+        a_ = n.args
+        names = [x.arg for x in a_.args]
+        dvals = [ev(d, env, funcs, depth) for d in a_.defaults]
+        kwd = {x.arg: (ev(d, env, funcs, depth) if d is not None else _MISSING) for x, d in zip(a_.kwonlyargs, a_.kw_defaults)}
+        outer = env
+
+        def _lam(*args, **kws):
+            if len(args) > len(names) and a_.vararg is None:
+                raise TypeError("lambda takes fewer positional arguments")
+            e2 = dict(outer)
+            e2.update(zip(names, args))
+            for nm, dv in zip(names[len(names) - len(dvals):], dvals):
+                if nm not in kws and names.index(nm) >= len(args):
+                    e2[nm] = dv
+            for nm, dv in kwd.items():
+                if nm not in kws and dv is not _MISSING:
+                    e2[nm] = dv
+            e2.update(kws)
+            if a_.vararg is not None:
+                e2[a_.vararg.arg] = tuple(args[len(names):])
+            return ev(n.body, e2, funcs, depth + 1)
+        return _lam
+    if t in (ast.ListComp, ast.SetComp, ast.GeneratorExp, ast.DictComp):
+        out_c: list[Any] = []
+
+        def _gen(i, e2):
+            if i == len(n.generators):
+                if isinstance(n, ast.DictComp):
+                    out_c.append((ev(n.key, e2, funcs, depth), ev(n.value, e2, funcs, depth)))
+                else:
+                    out_c.append(ev(n.elt, e2, funcs, depth))
+                return
+            g = n.generators[i]
+            seq = list(ev(g.iter, e2, funcs, depth))
+            if len(seq) > 5000:
+                raise Unsupported("comprehension over a long sequence")
+            for item in seq:
+                e3 = dict(e2)
+                bind(g.target, item, e3)
+                if all(ev(c, e3, funcs, depth) for c in g.ifs):
+                    _gen(i + 1, e3)
+        _gen(0, env)
+        if isinstance(n, ast.DictComp):
+            return dict(out_c)
+        return set(out_c) if isinstance(n, ast.SetComp) else out_c
+    if t is ast.Set:
+        return set(_starred(n.elts, env, funcs, depth))
+    if t is ast.Dict:
+        out_d: dict[Any, Any] = {}
+        for k, v in zip(n.keys, n.values):
+            if k is None:
+                out_d.update(ev(v, env, funcs, depth))
+            else:
+                out_d[ev(k, env, funcs, depth)] = ev(v, env, funcs, depth)
+        return out_d
+    if t is ast.JoinedStr:
+        out = ""
+        for v in n.values:
+            if isinstance(v, ast.Constant):
+                out += str(v.value)
+            else:
+                val = ev(v.value, env, funcs, depth)
+                spec = ev(v.format_spec, env, funcs, depth) if v.format_spec is not None else ""
+                if v.conversion == ord("r"):
+                    val = repr(val)
+                elif v.conversion == ord("s"):
+                    val = str(val)
+                out += format(val, spec)
+        return out
     raise Unsupported(f"expression `{un(n)[:50]}`")
 
 
@@ -381,6 +449,11 @@ def bind(t: ast.AST, v: Any, env: dict[str, Any]) -> None:
         setattr(env[t.value.id], t.attr, v)
     elif isinstance(t, ast.Subscript) and isinstance(t.value, ast.Name) and isinstance(env.get(t.value.id), (dict, list)) and not isinstance(t.slice, ast.Slice):
         env[t.value.id][ev(t.slice, env)] = v
+    elif isinstance(t, ast.Subscript) and isinstance(t.value, ast.Attribute) and not isinstance(t.slice, ast.Slice):
+        box = ev(t.value, env)
+        if not isinstance(box, (dict, list)):
+            raise Unsupported(f"assignment target `{un(t)[:40]}`")
+        box[ev(t.slice, env)] = v
     elif isinstance(t, (ast.Tuple, ast.List)) and any(isinstance(e, ast.Starred) for e in t.elts):
         vals = list(v)
         i = next(k for k, e in enumerate(t.elts) if isinstance(e, ast.Starred))
